@@ -224,17 +224,15 @@ partial def specRender : Spec.JVal → String
     let sorted := m.qsort (fun a b => Model.bytesLt a.1 b.1)
     "{" ++ ",".intercalate (sorted.toList.map (fun (k, v) => hexOrDash k ++ ":" ++ specRender v)) ++ "}"
 
-/-- the fixed JSON token table of the property statement (independent of the code's table) -/
-def specTokenType (b : UInt8) : Nat :=
-  if b == 110 then 1 else if b == 34 then 2 else if b == 45 || isDigit b then 3
-  else if b == 116 then 4 else if b == 102 then 5 else if b == 123 then 6 else if b == 125 then 7
-  else if b == 91 then 8 else if b == 93 then 9 else if b == 44 then 10 else if b == 58 then 11 else 0
 
 def membersStr (ms : List Spec.Member) : String :=
   ";".intercalate (ms.map (fun m => lhex m.field ++ "@" ++ toString m.off))
 
 def specOp (op : String) (args : List String) : Option String :=
   match op, args with
+  | "specFast", [lim, d] => do
+    let d ← hexToBytes d; let lim ← lim.toNat?
+    pure (match Spec.valueEnd (some lim) d.toList with | some e => s!"ok {e}" | none => "any")
   | "specString", [d] => do
     let d ← hexToBytes d
     pure (match Spec.readString d.toList with | some (c, e) => s!"ok {lhex c} {e}" | none => "err")
@@ -264,11 +262,18 @@ def specOp (op : String) (args : List String) : Option String :=
     let d ← hexToBytes d
     let lit : List UInt8 := if which == "null" then [110,117,108,108] else if which == "true" then [116,114,117,101] else [102,97,108,115,101]
     pure (match Spec.scanLit lit (Spec.skipWs d.toList) with | some r => s!"ok {d.size - r.length}" | none => "err")
+  | "specBool", [d] => do
+    let d ← hexToBytes d
+    let l := Spec.skipWs d.toList
+    pure (match Spec.scanLit [116,114,117,101] l, Spec.scanLit [102,97,108,115,101] l with
+      | some r, _ => s!"ok true {d.size - r.length}"
+      | none, some r => s!"ok false {d.size - r.length}"
+      | none, none => "err")
   | "specToken", [d] => do
     let d ← hexToBytes d
     pure (match Spec.skipWs d.toList with
       | [] => s!"eof"
-      | b :: rest => s!"tok {b.toNat} {specTokenType b} {d.size - rest.length}")
+      | b :: rest => s!"tok {b.toNat} {Spec.tokenType b} {d.size - rest.length}")
   | _, _ => none
 
 def runLine (line : String) : String :=
